@@ -70,11 +70,22 @@ def run(repo, rep, tier):
         raise AnalysisError("DataLists.add_table: loop over datalist.entries not found")
     loop = loops[0]
     stores = {}
+    # a local may stand for one of the three index dicts: bound as the value of that key in a dict literal, or read from it
+    alias = {}
+    for n in body_walk(at):
+        if isinstance(n, ast.Dict):
+            for k, v in zip(n.keys, n.values):
+                if isinstance(v, ast.Name) and try_const(k) in ("by_key", "key_index", "by_value"):
+                    alias[v.id] = try_const(k)
+        if isinstance(n, ast.Assign) and len(n.targets) == 1 and isinstance(n.targets[0], ast.Name) and isinstance(n.value, ast.Subscript) \
+                and try_const(n.value.slice) in ("by_key", "key_index", "by_value"):
+            alias[n.targets[0].id] = try_const(n.value.slice)
     for n in ast.walk(loop):
         if isinstance(n, ast.Assign) and isinstance(n.targets[0], ast.Subscript):
             t = U(n.targets[0])
+            base = n.targets[0].value
             for which in ("by_key", "key_index", "by_value"):
-                if f"['{which}']" in t:
+                if f"['{which}']" in t or (isinstance(base, ast.Name) and alias.get(base.id) == which):
                     stores[which] = n
     for which in ("by_key", "key_index", "by_value"):
         st = stores.get(which)
@@ -90,17 +101,18 @@ def run(repo, rep, tier):
                "" if ok else f"the store is conditional on {conds or 'control flow'}: entries that are not in ascending key order are never indexed and lookups by their key fail or fall back to ''",
                key=f"C06.R1@add_table:{which}")
     # the index key is the entry's own key
+    idx_v, elem_v = (U(loop.target.elts[0]), U(loop.target.elts[1])) if isinstance(loop.target, ast.Tuple) and len(loop.target.elts) == 2 else (None, U(loop.target))
     if "by_key" in stores:
         t = stores["by_key"].targets[0]
-        ok = U(t.slice) == "entry.key" and U(stores["by_key"].value) == "entry"
+        ok = U(t.slice) == f"{elem_v}.key" and U(stores["by_key"].value) == elem_v
         rep.ob("C06.R1", stores["by_key"], "by_key[entry.key] = entry", ok, "", key="C06.R1@add_table:by_key-key")
     if "key_index" in stores:
         t = stores["key_index"].targets[0]
         tg = U(loop.target).replace(" ", "")
-        ok = U(t.slice) == "entry.key" and U(stores["key_index"].value) == "i" and tg in ("(i,entry)", "i,entry") and U(loop.iter).startswith("enumerate(")
+        ok = U(t.slice) == f"{elem_v}.key" and idx_v is not None and U(stores["key_index"].value) == idx_v and U(loop.iter).startswith("enumerate(")
         rep.ob("C06.R1", stores["key_index"], "key_index[entry.key] = position of the entry", ok, "", key="C06.R1@add_table:key_index-key")
     if "by_value" in stores:
-        ok = U(stores["by_value"].value) == "entry.key"
+        ok = U(stores["by_value"].value) == f"{elem_v}.key"
         rep.ob("C06.R1", stores["by_value"], "by_value[value] = entry.key", ok, "", key="C06.R1@add_table:by_value")
     from ..symexec import running_max
     nk = [n for n in body_walk(at) if isinstance(n, ast.Assign) and "['next_key']" in U(n.targets[0])]
